@@ -248,7 +248,10 @@ func TestC19CLI(t *testing.T) {
 	}
 	for _, f := range files {
 		orig, _ := os.ReadFile(filepath.Join(base.GoitDir(), filepath.FromSlash(f)))
-		for i := 0; i <= len(orig); i += stride {
+		for i := 0; i <= len(orig); i++ {
+			if stride > 1 && i >= 32 && i%stride != 0 && i != len(orig) {
+				continue // quick tier: the first 32 positions completely, then every 5th
+			}
 			try(&c19cliCase{File: f, Kind: "trunc", Pos: i})
 			if i == len(orig) {
 				break
